@@ -42,6 +42,10 @@ pub struct Sc {
     /// --date-fmt of the application runs: 0 default, 1 [month]/[day]/[year], 2 [day].[month].[year]
     #[serde(default)]
     pub date_fmt: u8,
+    /// Some(h): every process of this simulation learns "today" from the simulated system clock and
+    /// TZ (h hours west of UTC; negative = east), through the real today_local(), not the test override.
+    #[serde(default)]
+    pub clock_tz: Option<i8>,
     /// Look-ups over a cache an earlier run left behind, while the network misbehaves.
     #[serde(default)]
     pub degraded: Vec<Degraded>,
@@ -203,6 +207,7 @@ pub fn generate(seed: u64) -> Sc {
         app_run_files: app_runs.iter().map(|_| r.range(1, 3) as usize).collect(),
         legacy_date_col: r.chance(1, 5),
         date_fmt: r.weighted(&[4, 1, 1]) as u8,
+        clock_tz: if r.chance(1, 3) { Some(*r.pick(&[5i8, 8, 12, -1, -9, -13])) } else { None },
         app_runs,
         hash_seed: r.next_u64(),
     }
@@ -300,6 +305,9 @@ impl Engine for C12 {
             }
         };
         st.add("sim.days", 0);
+        if let Some(h) = sc.clock_tz {
+            st.bump(if h > 0 { "probe.today_from_system_clock_west_of_utc" } else { "probe.today_from_system_clock_east_of_utc" });
+        }
         match sc.format.obs_order {
             1 => st.bump("probe.observations_listed_descending"),
             2 => st.bump("probe.observations_listed_late"),
@@ -329,6 +337,7 @@ impl Engine for C12 {
                 app_date_fmt: 0,
                 net_faults: vec![],
                 server_today: None,
+                clock_tz: sc.clock_tz,
                 fs_faults: FsFaultSpec::default(),
                 knobs: Knobs::default(),
                 hash_seed: sc.hash_seed,
@@ -467,6 +476,7 @@ impl Engine for C12 {
                 app_date_fmt: 0,
                 net_faults: vec![],
                 server_today: None,
+                clock_tz: sc.clock_tz,
                 fs_faults: FsFaultSpec::default(),
                 knobs: Knobs::default(),
                 hash_seed: sc.hash_seed ^ 0x11,
@@ -492,6 +502,7 @@ impl Engine for C12 {
                 app_date_fmt: 0,
                 net_faults: dg.net_faults.clone(),
                 server_today: None,
+                clock_tz: sc.clock_tz,
                 fs_faults: FsFaultSpec::default(),
                 knobs: Knobs::default(),
                 hash_seed: sc.hash_seed ^ 0x12,
@@ -576,6 +587,7 @@ impl Engine for C12 {
                 app_date_fmt: sc.date_fmt,
                 net_faults: vec![],
                 server_today: None,
+                clock_tz: sc.clock_tz,
                 fs_faults: FsFaultSpec::default(),
                 knobs: Knobs::default(),
                 hash_seed: sc.hash_seed,
@@ -627,6 +639,7 @@ impl Engine for C12 {
                     app_date_fmt: sc.date_fmt,
                     net_faults: vec![],
                     server_today: None,
+                    clock_tz: sc.clock_tz,
                     fs_faults: FsFaultSpec::default(),
                     knobs: Knobs::default(),
                     hash_seed: sc.hash_seed,
@@ -877,6 +890,11 @@ impl Engine for C12 {
             s.date_fmt = 0;
             c.push(s);
         }
+        if sc.clock_tz.is_some() {
+            let mut s = sc.clone();
+            s.clock_tz = None;
+            c.push(s);
+        }
         if sc.app_run_files.iter().any(|n| *n > 1) {
             let mut s = sc.clone();
             s.app_run_files.clear();
@@ -950,6 +968,8 @@ impl Engine for C12 {
             "probe.app_rows_over_several_files",
             "probe.app_sell_rows",
             "probe.app_runs_with_date_fmt_option",
+            "probe.today_from_system_clock_west_of_utc",
+            "probe.today_from_system_clock_east_of_utc",
             "probe.app_return_of_capital_in_usd_without_rate",
             "probe.console_run_rejected_with_message",
             "fault.obs_malformed_on_lookup_path",
